@@ -32,7 +32,7 @@ RULE = ("dense: every shape with <= 36 cells and order <= 4 (thorough; a seeded 
         "1-d / None argument conventions), plus 2^6 with three groups of two and with two groups of three modes, data = small integers of both signs with zeros (random), "
         "class-constant (symmetric) and symmetric with one entry changed (nearly symmetric); both versions, "
         "details on/off; Kruskal: cubic integer factor matrices of order 2..4, rank 1..3; malformed groups "
-        "(unequal extents, overlapping, out of range, empty, a mode listed twice) in a separate stream; non-trivial = accepted and "
+        "(unequal extents, overlapping, out of range, negative, empty, a mode listed twice) in a separate stream; non-trivial = accepted and "
         "more than one cell in a group of at least two modes; distinct = distinct case hash")
 ASSUMPTIONS = [
     "np.transpose / np.sort / fancy indexing / numpy_groupies.aggregate / itertools.permutations have the "
@@ -447,7 +447,12 @@ def malformed_groups(rng, shape):
         out.append(("range", [[n, n + 1], list(g)]))
     # empty row
     out.append(("empty", [[]]))
-    # a mode listed twice in one group (not checked by the code; model and implementation must still agree)
+    # a negative mode (NumPy would wrap it; the argument check refuses it)
+    out.append(("negative", [[-1]]))
+    out.append(("negative", [[0, -1]]))
+    if n >= 2:
+        out.append(("negative", [[0, 1], [-2, -1]]))
+    # a mode listed twice in one group
     out.append(("repeat", [[0, 0]]))
     if n >= 2 and shape[0] == shape[1]:
         out.append(("repeat", [[1, 1, 0]]))
@@ -457,10 +462,12 @@ def malformed_groups(rng, shape):
 
 
 class Malformed(Family):
-    """unequal extents / overlapping groups / modes out of range: symmetrize rejects; issymmetric answers
-    False for unequal extents; model and implementation agree on reject-or-not for every malformed input."""
+    """unequal extents / overlapping groups / modes out of range, negative or listed twice: symmetrize rejects;
+    issymmetric rejects modes that are out of range, negative or listed twice and answers False for unequal
+    extents; model and implementation agree on reject-or-not for every malformed input."""
     name = "malformed"
-    theorems = ("C15_symmetrize_rejects", "C15_issymmetric_unequal_sizes")
+    theorems = ("C15_symmetrize_rejects", "C15_symmetrize_accepts_iff", "C15_issymmetric_rejects",
+                "C15_issymmetric_unequal_sizes")
 
     def gen(self, rng, tier):
         out = []
@@ -497,8 +504,12 @@ class Malformed(Family):
             v = Verdict("ok", "", per, ms, None, tags, False)
             names = ["symmetrize()", "symmetrize(version=1)"] + [f"issymmetric({a},{b})" for a, b in IsSymmetric.COMBOS]
             for i, (r, m, nm) in enumerate(zip(per, ms, names)):
-                if i < 2 and c["bad"] in ("unequal", "overlap", "range") and "ok" in r:
+                if i < 2 and c["bad"] in ("unequal", "overlap", "range", "repeat", "negative") and "ok" in r:
                     v = Verdict("violation", f"{nm} accepted malformed groups ({c['bad']}): {c['grps']}", per, ms, None, tags)
+                    break
+                if i >= 2 and c["bad"] in ("range", "repeat", "negative") and "ok" in r:
+                    v = Verdict("violation", f"{nm} accepted groups that do not list distinct modes of the tensor "
+                                f"({c['bad']}): {c['grps']}", per, ms, None, tags)
                     break
                 if i >= 2 and c["bad"] == "unequal" and not ("ok" in r and r["ok"]["b"] is False):
                     v = Verdict("violation", f"{nm} did not answer False for groups of modes with different extents", per, ms, None, tags)
